@@ -174,5 +174,41 @@ def run(ck):
     else:
         ck.violation("R4.next-offset", "R4|getNextRangeOffset|start-def", gn.where(), "getNextRangeOffset: start = %s" % E.key(d))
     ck.require_fact("R4.next-offset", ck.flow(gn), ev_return(E.m_is_ref(st[0][0])), E.m_is_mem("HttpRequest::range"), True, "return start")
+    # ------------------------------------------------------------------ the first body chunk is labelled with its true object offset
+    ck.rule("R5 LABEL clientReplyContext::processReplyAccessResult: the StoreIOBuffer handed to clientStreamCallback() describes the bytes it carries: its data pointer is "
+            "the received body pointer itself (bytes from object offset .offset = 0), or, if it is advanced by some amount, its .offset member is set to that same amount "
+            "on every path. Http::Stream decides what to send from bodyData.range(); a chunk advanced to the lowest requested offset but labelled 0 is harmless only "
+            "while the Range stays in force and becomes the start of a 200 body when buildRangeHeader() ignores the Range (If-Range mismatch, too complex range set)")
+    crf = ck.facts(["src/client_side_reply.cc"], whole=False)
+    pra = crf.fn("clientReplyContext::processReplyAccessResult")
+    pfl = ck.flow(pra)
+    cb = ck.sites(pfl, ev_call("clientStreamCallback"), "clientStreamCallback()", 1)
+    bufs = sorted({E.strip(E.strip(st.ev["x"])["a"][3]).get("d") for st in cb if len(E.strip(st.ev["x"]).get("a", [])) == 4})
+    ck.need(len(bufs) == 1 and bufs[0], "C15: processReplyAccessResult no longer passes one local StoreIOBuffer to clientStreamCallback: %s" % bufs)
+    lb = bufs[0]
+    is_member = lambda lhs, m: E.strip(lhs).get("k") == "mem" and E.strip(lhs)["m"] == "StoreIOBuffer::" + m and E.m_is_ref(lb)(E.strip(lhs).get("b"))
+    ndata = 0
+    for b in pra.blocks.values():
+        for ev in b["ev"]:
+            if ev.get("e") != "asg" or not is_member(ev.get("lhs"), "data"):
+                continue
+            ndata += 1
+            rhs = E.strip(ev.get("rhs"))
+            if rhs.get("k") in ("ref", "null") or (rhs.get("k") == "mem"):
+                ck.ok("R5.chunk-label", pra.where(ev["l"]), "data = %s (bytes from offset 0 of what was received)" % E.key(rhs))
+                continue
+            adv = None
+            if rhs.get("k") == "bin" and rhs.get("op") == "+":
+                adv = rhs["r"] if E.strip(rhs["l"]).get("k") == "ref" else rhs["l"]
+            same_block = adv is not None and any(E.ckey(e2.get("rhs")) == E.ckey(adv) for e2 in b["ev"] if e2.get("e") == "asg" and is_member(e2.get("lhs"), "offset"))
+            if same_block:
+                ck.ok("R5.chunk-label", pra.where(ev["l"]), "data advanced by %s and .offset set to the same amount" % E.key(adv))
+            else:
+                ck.violation("R5.chunk-label", "R5|processReplyAccessResult|advanced-chunk-labelled-0", pra.where(ev["l"]),
+                             "the first body chunk is advanced (%s) but still labelled as starting at object offset 0: when Http::Stream::buildRangeHeader() later ignores the "
+                             "Range (If-Range mismatch, out-of-order or too complex set), a 200 response with the full Content-Length starts with the bytes at the lowest "
+                             "requested offset" % E.key(rhs))
+    ck.need(ndata >= 1, "C15: processReplyAccessResult no longer sets the chunk's data pointer")
+
     ck.assume("the bytes actually delivered are not compared with the representation; HttpHdrRange::canonize (C28) and the store offsets requested upstream are not analysed; "
               "Squid never generates 416 itself (an unsatisfiable Range falls back to the full 200)")
